@@ -1337,6 +1337,46 @@ func linkEmptyAssume(node ssa.Value, empty bool) *fxAssume {
 	}
 }
 
+// freshSliceLens: v is a freshly made slice — a make, or the result of a
+// static in-repo helper (depth ≤ 2) all of whose returns are such — and
+// returns the length expressions in terms of the outermost caller's values
+// (helper parameters mapped to arguments).
+func freshSliceLens(v ssa.Value, env *fxEnv, depth int) ([]ssa.Value, bool) {
+	v, env = env.resolve(v)
+	if ms, ok := v.(*ssa.MakeSlice); ok {
+		ln, _ := env.resolve(ms.Len)
+		return []ssa.Value{ln}, true
+	}
+	call, idx := fxCallOf(v)
+	if call == nil || idx != 0 || depth >= 2 {
+		return nil, false
+	}
+	callee := ir.Callee(call.Call)
+	if callee == nil || !fxOwnFunc(callee) {
+		return nil, false
+	}
+	sub := &fxEnv{bind: map[*ssa.Parameter]ssa.Value{}, up: env}
+	for i, p := range callee.Params {
+		if i < len(call.Call.Args) {
+			sub.bind[p] = call.Call.Args[i]
+		}
+	}
+	var out []ssa.Value
+	for _, r := range ir.Returns(callee) {
+		if len(r.Results) == 0 {
+			return nil, false
+		}
+		for _, l := range (&fxAssume{}).leaves(r.Results[0], nil) {
+			ls, ok := freshSliceLens(l, sub, depth+1)
+			if !ok {
+				return nil, false
+			}
+			out = append(out, ls...)
+		}
+	}
+	return out, len(out) > 0
+}
+
 func restoreCheck(c *Ctx) {
 	type site struct {
 		fn   *ssa.Function
@@ -1409,15 +1449,17 @@ func restoreCheck(c *Ctx) {
 		storeBlocks := map[*ssa.BasicBlock]bool{}
 		for _, st := range stores {
 			storeBlocks[st.Block()] = true
-			ms, ok := st.Val.(*ssa.MakeSlice)
+			lens, ok := freshSliceLens(st.Val, nil, 0)
 			if !ok {
 				okLen = false
 				c.Undecided(fn, c.P.InstrPos(st), construct, "node.Link is assigned "+ir.Sym(st.Val)+", not a fresh slice")
 				continue
 			}
-			if b, ok := fxIsLenOfFieldPlus1(ms.Len, "Key"); !ok || b != ssa.Value(node) {
-				okLen = false
-				c.Violation(fn, c.P.InstrPos(st), construct, s.what+": the restored link list has length "+ir.Sym(ms.Len)+", the writer dropped len(node.Key)+1 nil links")
+			for _, ln := range lens {
+				if b, ok := fxIsLenOfFieldPlus1(ln, "Key"); !ok || b != ssa.Value(node) {
+					okLen = false
+					c.Violation(fn, c.P.InstrPos(st), construct, s.what+": the restored link list has length "+ir.Sym(ln)+", the writer dropped len(node.Key)+1 nil links")
+				}
 			}
 		}
 		if !okLen {
